@@ -328,9 +328,42 @@ def run_case(case):
     guard("reshape", t_reshape)
 
     # ---- tuple reduction == reduction over the flattened group --------------------------------
+    def t_regroup():
+        # an operand that already carries a group, reshaped onto the SAME member order with the group boundary somewhere else
+        if nd < 3:
+            return
+        for cut_from in range(1, nd):
+            for cut_to in range(1, nd):
+                if cut_from == cut_to:
+                    continue
+                g = lib(lambda: a.reshape(",".join(dims[:cut_from]), ",".join(dims[cut_from:])), what="reshape into two groups", sig={"op": "reshape"})
+                target = [",".join(dims[:cut_to]), ",".join(dims[cut_to:])]
+                what = "reshape(%s) of an array grouped as %s dims=%s" % (target, list(g.dims), dims)
+                res = lib(lambda: g.reshape(*target), what=what, sig={"op": "reshape"})
+                check_grouped(res, src, dims, labels, [dims[:cut_to], dims[cut_to:]], what, {"op": "reshape"})
+        cl.add("reshape:regroup-same-order")
+    guard("regroup", t_regroup)
+
     def t_tuple():
         if nd < 2:
             return
+        # the same object reduced over a group, changed in place through the library, and reduced over the same group again
+        if src_vals.dtype.kind == "f" and src_vals.size >= 2:
+            for pair in list(itertools.permutations(dims, 2))[:6]:
+                b = da.DimArray(np.array(src_vals, copy=True), axes=[ax.copy() for ax in a.axes])
+                lib(lambda: (b.sum(axis=tuple(pair)), b.mean(axis=list(pair))), what="first reduction over %s" % (pair,), sig={"op": "tuple-reduction"})
+                coord = tuple(core.label_array(l)[-1] for l in labels)
+                lib(lambda: b.__setitem__(coord, 1000.0), what="b[last labels] = 1000.", sig={"op": "tuple-reduction"})
+                x = lib(lambda: b.sum(axis=tuple(pair)), what="second reduction over %s after an in-place change" % (pair,), sig={"op": "tuple-reduction"})
+                y = lib(lambda: b.flatten(tuple(pair), insert=0).sum(axis=0), what="flatten + sum after an in-place change", sig={"op": "tuple-reduction"})
+                if nd == 2:
+                    check(core.same_scalar(x, y, tol=True) and core.same_scalar(x, float(np.sum(b.values)), tol=True), "tuple-reduction-after-in-place-change",
+                          {"what": "sum(axis=%s) after b[...] = 1000." % (pair,), "got": core.jsonable(x), "expected": float(np.sum(b.values))}, {"op": "tuple-reduction"})
+                else:
+                    core.expect_equal_arrays(x, y, "sum(axis=%s) after an in-place change vs flatten + sum" % (pair,), tol=True, sig={"op": "tuple-reduction"})
+                    check(core.same_scalar(float(np.sum(x.values)), float(np.sum(b.values)), tol=True), "tuple-reduction-after-in-place-change",
+                          {"what": "sum(axis=%s) after b[...] = 1000." % (pair,), "got_total": float(np.sum(x.values)), "expected_total": float(np.sum(b.values))}, {"op": "tuple-reduction"})
+            cl.add("tuple-reduction:again-after-in-place-change")
         # a tuple / list naming ONE dimension is a group of one: the same as naming the dimension itself
         for d in dims:
             for red in ("sum", "mean", "max", "cumsum", "argmax"):
